@@ -260,6 +260,33 @@ pub fn drive_sizes(ctx: &mut Ctx, rng: &mut Rng, thorough: bool) {
                     run_round(ctx, &mut rig, vec![(0, d), (1, s)], vec![], false);
                 }
             }
+            // two extra fields with known tags that a request does not need, inserted where the WIRE order of tags puts them
+            // (well-formed: the request is still answered) and in the opposite order (malformed: dropped)
+            for p in [Proto::Google, Proto::Ietf] {
+                let base = valid_request(rng, p, 1200, None);
+                let off = if p == Proto::Ietf { 12 } else { 0 };
+                let fields = rc::ref_decode(&base[off..]).unwrap_or_default();
+                let present: Vec<u64> = fields.iter().map(|f| f.0).collect();
+                let extra: Vec<u64> = (1..=18u64).filter(|r| !present.contains(r) && *r != rc::PAD && *r != rc::ZZZZ).collect();
+                for (ai, a) in extra.iter().enumerate() {
+                    for b in extra.iter().skip(ai + 1) {
+                        for swapped in [false, true] {
+                            let mut f2 = fields.clone();
+                            f2.push((*a, vec![0x11; 4])); f2.push((*b, vec![0x22; 4]));
+                            f2.sort_by_key(|f| f.0);
+                            if swapped { let (ia, ib) = (f2.iter().position(|f| f.0 == *a).unwrap(), f2.iter().position(|f| f.0 == *b).unwrap()); f2.swap(ia, ib); }
+                            let last = f2.len() - 1;
+                            let enc0 = rc::ref_encode(&f2);
+                            let want = base.len() - off;
+                            if enc0.len() > want { let extra_len = enc0.len() - want; let l = f2[last].1.len(); if l >= extra_len { f2[last].1.truncate(l - extra_len); } }
+                            let enc = rc::ref_encode(&f2);
+                            let d = if p == Proto::Ietf { rc::ref_frame(&enc) } else { enc };
+                            let s = sentinel(rng, *a);
+                            run_round(ctx, &mut rig, vec![(0, d), (1, s)], vec![], false);
+                        }
+                    }
+                }
+            }
             // every field of each request shape repeated once, and every neighbouring pair swapped
             for p in [Proto::Google, Proto::Ietf] {
                 for with_srv in [false, true] {
@@ -825,7 +852,7 @@ pub fn drive_batchcfg(ctx: &mut Ctx, rng: &mut Rng, thorough: bool) {
 /// C17 wiring: traffic mixes with both recorder kinds
 pub fn drive_stats(ctx: &mut Ctx, rng: &mut Rng, thorough: bool) {
     for (k, client_stats) in [false, true, false, true].iter().enumerate() {
-        let mut c = cfg(if k < 2 { 8 } else { 1 }, 0, 0, 12);
+        let mut c = cfg(if k < 2 { 8 } else { 1 }, 0, [0usize, 5, 4, 0][k], 12);      // (diagnostics of the publication step run at Debug / Trace)
         c.client_stats = *client_stats;
         let mut rig = match new_section(ctx, c) { Some(r) => r, None => continue };
         let srv = rig.srv.clone();
@@ -850,6 +877,13 @@ pub fn drive_stats(ctx: &mut Ctx, rng: &mut Rng, thorough: bool) {
         let e = rig.publish_event(); ctx.emit(e);
         run_round(ctx, &mut rig, vec![(5, rng.bytes(40))], vec![], false);
         let e = rig.publish_event(); ctx.emit(e);
+        // a reporter that does not keep up: six publications, each after some traffic, before anything is popped; the queue
+        // holds four snapshots (force_push drops the oldest), the recorder starts over every time
+        for k in 0..6usize {
+            let sends: Vec<(usize, Vec<u8>)> = (0..(2 + k)).map(|i| (i % 12, if i % 3 == 2 { rng.bytes(30) } else { let pp = if i % 2 == 0 { Proto::Google } else { Proto::Ietf }; valid_request(rng, pp, 1024, None) })).collect();
+            run_round(ctx, &mut rig, sends, vec![], false);
+            let e = rig.publish_step(k == 5); ctx.emit(e);
+        }
         let st = rig.stats_event();
         ctx.emit(st);
     }
